@@ -1,0 +1,55 @@
+//go:build verif
+
+package asn1
+
+import "math/big"
+
+// Verification hooks (C19): thin exported wrappers around the unexported
+// layer-0 DER primitives. Built only with -tags verif.
+
+func ZVParseBool(b []byte) (bool, error)                    { return parseBool(b) }
+func ZVCheckInteger(b []byte) error                         { return checkInteger(b) }
+func ZVParseInt64(b []byte) (int64, error)                  { return parseInt64(b) }
+func ZVParseInt32(b []byte) (int32, error)                  { return parseInt32(b) }
+func ZVParseBigInt(b []byte) (*big.Int, error)              { return parseBigInt(b) }
+func ZVParseBitString(b []byte) (BitString, error)          { return parseBitString(b) }
+func ZVParseObjectIdentifier(b []byte) ([]int, error)       { return parseObjectIdentifier(b) }
+func ZVParseBase128Int(b []byte, off int) (int, int, error) { return parseBase128Int(b, off) }
+
+// ZVParseTagAndLength returns class, tag, length, isCompound, new offset.
+func ZVParseTagAndLength(b []byte, off int) (class, tag, length int, isCompound bool, offset int, err error) {
+	t, o, e := parseTagAndLength(b, off)
+	return t.class, t.tag, t.length, t.isCompound, o, e
+}
+
+func encodeAll(e encoder) []byte {
+	dst := make([]byte, e.Len())
+	e.Encode(dst)
+	return dst
+}
+
+func ZVEncodeInt64(v int64) []byte { return encodeAll(int64Encoder(v)) }
+
+func ZVEncodeBigInt(n *big.Int) ([]byte, error) {
+	e, err := makeBigInt(n)
+	if err != nil {
+		return nil, err
+	}
+	return encodeAll(e), nil
+}
+
+func ZVAppendBase128Int(dst []byte, n int64) []byte { return appendBase128Int(dst, n) }
+
+func ZVAppendTagAndLength(dst []byte, class, tag, length int, isCompound bool) []byte {
+	return appendTagAndLength(dst, tagAndLength{class: class, tag: tag, length: length, isCompound: isCompound})
+}
+
+func ZVEncodeBitString(b BitString) []byte { return encodeAll(bitStringEncoder(b)) }
+
+func ZVEncodeObjectIdentifier(oid []int) ([]byte, error) {
+	e, err := makeObjectIdentifier(oid)
+	if err != nil {
+		return nil, err
+	}
+	return encodeAll(e), nil
+}
